@@ -216,6 +216,7 @@ macro_rules! shape_covers {
 shape_no_delta!(c04_s0_i0_f0, 0, 0, 0, covers: []);
 shape_no_delta!(c04_s2_i0_f0, 2, 0, 0, covers: [valid]);
 shape_no_delta!(c04_s2_i0_f1, 2, 0, 1, covers: [valid valid_with_failure]);
+shape_no_delta!(c04_s2_i0_f2, 2, 0, 2, covers: [valid valid_with_failure]);
 shape_no_delta!(c04_s3_i0_f0, 3, 0, 0, covers: [trusted valid]);
 shape_no_delta!(c04_s3_i1_f0, 3, 1, 0, covers: [trusted valid]);
 shape_no_delta!(c04_s3_i0_f1, 3, 0, 1, covers: [valid valid_with_failure]);
